@@ -89,6 +89,9 @@ type thread struct {
 	selDone  bool
 	joiners  []*thread
 	vc       []uint32 // vector clock for happens-before fingerprints
+	cid      uint64   // canonical (schedule independent) id: position in the spawn tree
+	spawned  uint64
+	armed    uint64
 }
 
 // Point describes one scheduling decision.
@@ -250,7 +253,12 @@ func Run(opts Options, body func()) *Result {
 //go:norace
 func (e *exec) newThread(parent int, name string, app bool) *thread {
 	t := &thread{id: len(e.threads), parent: parent, name: name, app: app,
-		wake: make(chan struct{}, 1), exited: make(chan struct{})}
+		wake: make(chan struct{}, 1), exited: make(chan struct{}), cid: 1}
+	if parent >= 0 && parent < len(e.threads) {
+		p := e.threads[parent]
+		p.spawned++
+		t.cid = mix(mix(0x51ed270b, p.cid), p.spawned)
+	}
 	e.threads = append(e.threads, t)
 	if e.hb != nil {
 		e.hb.newThread(t, parent)
